@@ -20,7 +20,7 @@ for rel in sorted(src):
                     if isinstance(t, ast.Name):
                         consts.append(f'{prefix}.{t.id}')
             if isinstance(n, (ast.FunctionDef, ast.AsyncFunctionDef)):
-                funcs.append(f'{prefix}.{n.name} {body_digest(n)}')
+                funcs.append(f'{prefix}.{n.name} {body_digest(n)} ' + ','.join(a.arg for a in n.args.posonlyargs + n.args.args))
             elif isinstance(n, ast.ClassDef):
                 for a, init in class_attrs(n).items():
                     attrs.append(f'{prefix}.{n.name}\t{a}\t{init}')
